@@ -523,13 +523,20 @@ Definition pad_data (sh : list nat) (flat : list Z) (w : list (nat * nat)) : lis
 Inductive axesarg := AxNone | AxInt (k : Z) | AxList (l : list Z).
 
 (* crop: slices (before, after or None when after = 0) on the axes named in the dict; other
-   axes (also negative or out-of-range keys, which never match) are left whole *)
+   axes are left whole *)
 Definition crop_slices (n : nat) (crop_dict : list (Z * (Z * Z))) : list index :=
   map (fun ax => match dict_get (Z.of_nat ax) crop_dict with
                  | Some (before, after) =>
                    ISlice (Some before) (if (after =? 0)%Z then None else Some after) None
                  | None => full
                  end) (seq 0 n).
+
+(* Dataset._normalize_axes: every axis through numpy's normalize_axis_index — negative axes count
+   from the last one, out-of-range axes raise AxisError (a ValueError AND an IndexError; reported
+   as IndexErr) *)
+Definition norm_axis (n : nat) (k : Z) : res Z :=
+  match pyidx k n with Some i => Ok (Z.of_nat i) | None => Err IndexErr end.
+Definition norm_axes (n : nat) (ax : list Z) : res (list Z) := mapM (norm_axis n) ax.
 
 Definition crop_index (n : nat) (widths : list (Z * Z)) (axes : axesarg) : res (list index) :=
   do aw <- match axes with
@@ -538,7 +545,8 @@ Definition crop_index (n : nat) (widths : list (Z * Z)) (axes : axesarg) : res (
            | AxInt k => match widths with [] => Err IndexErr | w :: _ => Ok ([k], [w]) end
            | AxList l => Ok (l, widths)
            end;
-  let (ax, w) := (aw : list Z * list (Z * Z)) in
+  let (ax0, w) := (aw : list Z * list (Z * Z)) in
+  do ax <- norm_axes n ax0;
   if length w =? length ax then Ok (crop_slices n (dict_of (combine ax w)))
   else Err ValueErr.
 
@@ -680,7 +688,7 @@ Section Model.
     : res state :=
     let d := get_ds s t in
     let a := get_arr s (d_arr d) in
-    let ax := axes_list (ndim a) axes in
+    do ax <- norm_axes (ndim a) (axes_list (ndim a) axes);
     do facs <- bin_factors fa (length ax);
     if existsb (fun f => (f <=? 0)%Z) facs then Err ValueErr
     else
@@ -760,7 +768,7 @@ Section Model.
     let d := get_ds s t in
     let a := get_arr s (d_arr d) in
     let sh := a_shape a in
-    let ax := axes_list (ndim a) axes in
+    do ax <- norm_axes (ndim a) (axes_list (ndim a) axes);
     do outs <- fr_out_shape sh ax spec;
     if existsb (fun n => (n <? 1)%Z) outs then Err ValueErr
     else if existsb (fun a0 => match shape_at sh a0 with Ok 0%Z => true | _ => false end) ax
@@ -808,6 +816,9 @@ Section Model.
     let a := get_arr s (d_arr d) in
     match d_cls d, a_shape a with
     | D4stem, [n0; n1; n2; n3] =>
+      (* np.median over axes (0, 1) of an array with an EMPTY detector (n2 * n3 = 0) raises
+         ValueError ("cannot reshape array of size 0"), np.mean / np.max return the empty array *)
+      if (match r with RMedian => true | _ => false end) && (n2 * n3 =? 0) then Err ValueErr else
       do data <- mapM (fun o : list nat =>
                          reduce_list r (flat_map (fun i => map (fun j =>
                              nth (ravel (a_shape a) (i :: j :: o)) (a_flat a) 0%Z) (seq 0 n1)) (seq 0 n0)))
